@@ -12,10 +12,10 @@ def units(tier):
     ents = []
     for p, ln, md in grid:
         cap = 16 if ln * (md + 1) <= 16 else 20
-        uw = ['h_fdiff.%d:%d' % (k, ln + 2) for k in range(0, 8)] + ['fpow.0:%d' % (ln + 1)]
-        ents.append(Entry('h_fdiff', defines={'FP': p, 'LEN': ln, 'MD': md, 'CAP': cap}, route='B', timeout=900 if tier == 'quick' else 3000, mem_gb=6,
+        uw = ['%s.0:%d' % (f, cap + 1) for f in ('vb_fill', 'vb_shift_up', 'vb_shift_down')]
+        ents.append(Entry('h_fdiff', defines={'FP': p, 'LEN': ln, 'MD': md, 'CAP': cap}, route='B', timeout=900 if tier == 'quick' else 3000, mem_gb=6, unwindset=uw,
                           unwind=ln * (md + 1) + 2, bounds="grid of %d pairwise distinct points and any centre over GF(%d), max_deriv = %d" % (ln, p, md)))
-    ents.append(Entry('h_fdiff_second_call', defines={'FP': 5, 'LEN': 3, 'MD': 2, 'CAP': 16}, route='B', timeout=900, mem_gb=6, unwind=11,
+    ents.append(Entry('h_fdiff_second_call', defines={'FP': 5, 'LEN': 3, 'MD': 2, 'CAP': 16}, route='B', timeout=900, mem_gb=6, unwind=11, unwindset=['vb_fill.0:17', 'vb_shift_up.0:17', 'vb_shift_down.0:17'],
                       bounds="two consecutive calls on grids of 3 distinct points over GF(5), max_deriv = 2"))
     u = Unit('fdiff', 'C38', 'contracts/C38/fdiff.cpp', {'fd.inc': [Piece(FD, r'vec_basic generate_fdiff_weights_vector\(const vec_basic &grid,', rules=TOK)]},
              ents, route='B',
